@@ -1,0 +1,14 @@
+//go:build verif
+
+package virtual
+
+// VerifEntries returns a copy of the locks held in the set, in list
+// order. It only exists in builds with the "verif" tag, where it is
+// used to compare the set against its formal model.
+func (ls *ByteRangeLockSet[Owner]) VerifEntries() []ByteRangeLock[Owner] {
+	var entries []ByteRangeLock[Owner]
+	for le := ls.list.next; le != &ls.list; le = le.next {
+		entries = append(entries, le.lock)
+	}
+	return entries
+}
